@@ -1,4 +1,5 @@
 import NunavutVerif.Lemmas.Bits
+import NunavutVerif.Lemmas.BitsCpp
 /-!
 # C14 — support-library bit primitives are correct for all offsets, lengths and values (integer/bit part)
 
@@ -132,7 +133,7 @@ theorem C14_little_eq_any (W : Nat) (buf : Buf) (size off len value : Nat) (v : 
 /-! ### non-vacuity: the hypotheses are met by non-trivial states, and the functions really compute -/
 
 -- unaligned copy of 11 bits from source bit 3 to destination bit 5
-example : copyBits [0xFF, 0x00, 0xFF] 5 11 [0xA5, 0x3C, 0x7E] 3 = .ok [0x9F, 0xF4, 0xFF] := by decide
+example : copyBits [0xFF, 0x00, 0xFF] 5 11 [0xA5, 0x3C, 0x7E] 3 = .ok [0x9F, 0xF2, 0xFF] := by decide
 -- aligned copy of 11 bits (memmove + last-byte mask)
 example : copyBits [0xFF, 0xFF, 0xFF] 8 11 [0xA5, 0x3C, 0x7E] 8 = .ok [0xFF, 0x3C, 0xFE] := by decide
 -- a destination that is too small is detected by the model (the precondition of T1 is not vacuous)
@@ -144,5 +145,158 @@ example : setUxx true [0, 0] 2 8 1 9 = .ok (errTooSmall, [0, 0]) := by decide
 example : getU false 16 [0x80, 0xFF, 0] 3 7 9 = .ok 0x1FF := by decide
 example : getI false 16 [0x80, 0xFF, 0] 3 7 9 = .ok (-1) := by decide
 example : getI true 8 [0xFF] 1 4 8 = .ok 15 := by decide
+example : getI true 8 [0xFF] 1 4 3 = .ok (-1) := by decide
+
+/-! ## C++: `nunavut/support/serialization.hpp` (`bitspan`, `const_bitspan`)
+
+A span is `⟨data, off⟩`: the bytes `data_` refers to and `offset_bits_`. -/
+
+/-- T1 (C++) `const_bitspan::copyTo`: the length is clamped to the size of the source; under the asserted
+precondition `length_bits <= dst.size()` (for the clamped length) nothing is accessed outside either span and
+exactly the addressed destination bits receive the source bits. -/
+theorem C14_cpp_copyTo (src dst : Cpp.Span) (len : Nat)
+    (hd : min len src.size ≠ 0 → dst.off + min len src.size ≤ dst.data.length * 8) :
+    ∃ r, Cpp.copyTo src dst len = .ok r ∧ r.length = dst.data.length ∧ (WF src.data → WF dst.data → WF r) ∧
+      ∀ i, bitAt r i = if dst.off ≤ i ∧ i < dst.off + min len src.size
+        then bitAt src.data (src.off + (i - dst.off)) else bitAt dst.data i :=
+  Cpp.copyTo_spec src dst len hd
+
+/-- `copyTo` is the C `nunavutCopyBits` on the clamped length (both branches). -/
+theorem C14_cpp_copyTo_eq_c (src dst : Cpp.Span) (len : Nat) :
+    Cpp.copyTo src dst len = copyBits dst.data dst.off (min len src.size) src.data src.off :=
+  Cpp.copyTo_eq src dst len
+
+/-- T2 (C++) `const_bitspan::getBits`: zero-extended, zero-padded, never out of bounds (output of at least
+`ceil(len/8)` bytes, as asserted). -/
+theorem C14_cpp_getBits (src : Cpp.Span) (out : Buf) (len : Nat) (hout : (len + 7) / 8 ≤ out.length) :
+    ∃ r, Cpp.getBits src out len = .ok r ∧ r.length = out.length ∧ (WF src.data → WF out → WF r) ∧
+      ∀ i, bitAt r i =
+        if i < (len + 7) / 8 * 8 then (decide (i < len) && bitAt src.data (src.off + i)) else bitAt out i := by
+  rw [Cpp.getBits_eq]
+  obtain ⟨r, h1, h2, h3, h4⟩ := getBits_spec out src.data src.data.length src.off len (Nat.le_refl _) hout
+  refine ⟨r, h1, h2, h3, fun i => ?_⟩
+  rw [h4 i]
+  by_cases hA : i < (len + 7) / 8 * 8
+  · simp only [hA, if_true, zbit]
+    by_cases hB : src.off + i < src.data.length * 8
+    · simp [hB]
+    · have : src.data.length ≤ (src.off + i) / 8 := by omega
+      simp [hB, bitAt_of_ge this]
+  · simp only [hA, if_false]
+
+/-- T3 (C++) `bitspan::setUxx`: error ⇔ `size·8 < off + len`, then unchanged; otherwise exactly the `min len 64`
+addressed bits become the low bits of the value. -/
+theorem C14_cpp_setUxx (sp : Cpp.Span) (value len : Nat) :
+    (sp.data.length * 8 < sp.off + len → Cpp.setUxx sp value len = .ok (errTooSmall, sp.data)) ∧
+    (¬ sp.data.length * 8 < sp.off + len →
+      ∃ r, Cpp.setUxx sp value len = .ok (0, r) ∧ r.length = sp.data.length ∧ (WF sp.data → WF r) ∧
+        ∀ i, bitAt r i =
+          if sp.off ≤ i ∧ i < sp.off + min len 64 then value.testBit (i - sp.off) else bitAt sp.data i) := by
+  rw [Cpp.setUxx_eq]
+  exact ⟨setUxx_small false sp.data _ sp.off value len,
+    setUxx_spec false sp.data _ sp.off value len (Nat.le_refl _)⟩
+
+/-- T3 (C++) `bitspan::setIxx`: the same with the two's-complement bits of the value. -/
+theorem C14_cpp_setIxx (sp : Cpp.Span) (value : Int) (len : Nat) :
+    (sp.data.length * 8 < sp.off + len → Cpp.setIxx sp value len = .ok (errTooSmall, sp.data)) ∧
+    (¬ sp.data.length * 8 < sp.off + len →
+      ∃ r, Cpp.setIxx sp value len = .ok (0, r) ∧ r.length = sp.data.length ∧ (WF sp.data → WF r) ∧
+        ∀ i, bitAt r i =
+          if sp.off ≤ i ∧ i < sp.off + min len 64 then (value % 2 ^ 64).toNat.testBit (i - sp.off)
+          else bitAt sp.data i) :=
+  C14_cpp_setUxx sp (toU64 value) len
+
+/-- T3 (C++) `bitspan::setBit`. -/
+theorem C14_cpp_setBit (sp : Cpp.Span) (value : Bool) :
+    (sp.data.length * 8 ≤ sp.off → Cpp.setBit sp value = .ok (errTooSmall, sp.data)) ∧
+    (¬ sp.data.length * 8 ≤ sp.off →
+      ∃ r, Cpp.setBit sp value = .ok (0, r) ∧ r.length = sp.data.length ∧ (WF sp.data → WF r) ∧
+        ∀ i, bitAt r i = if i = sp.off then value else bitAt sp.data i) := by
+  rw [Cpp.setBit_eq]
+  exact ⟨setBit_small sp.data _ sp.off value, setBit_spec sp.data _ sp.off value (Nat.le_refl _)⟩
+
+/-- T4 (C++) `const_bitspan::getU8/16/32/64`: the zero-extended field of `min len W` bits. -/
+theorem C14_cpp_getU (W : Nat) (sp : Cpp.Span) (len : Nat) (hW : W % 8 = 0) (hw : WF sp.data) :
+    Cpp.getU W sp len = .ok (fieldOf (fun i => bitAt sp.data (sp.off + i)) (min len W)) :=
+  Cpp.getU_spec W sp len hW hw
+
+/-- T4 (C++) `const_bitspan::getI8/16/32/64`: two's-complement sign extension, no signed overflow. -/
+theorem C14_cpp_getI (W : Nat) (sp : Cpp.Span) (len : Nat) (hW : W % 8 = 0) (hW0 : 0 < W) (hW64 : W ≤ 64)
+    (hw : WF sp.data) :
+    Cpp.getI W sp len = .ok
+      (let sat := min len W
+       let u := fieldOf (fun i => bitAt sp.data (sp.off + i)) sat
+       if sat > 0 ∧ u.testBit (sat - 1) then (u : Int) - 2 ^ sat else (u : Int)) :=
+  Cpp.getI_spec W sp len hW hW0 hW64 hw
+
+/-- T4 (C++) `const_bitspan::getBit`. -/
+theorem C14_cpp_getBit (sp : Cpp.Span) (hw : WF sp.data) : Cpp.getBit sp = .ok (bitAt sp.data sp.off) := by
+  unfold Cpp.getBit
+  rw [Cpp.getU_spec 8 sp 1 (by omega) hw]
+  simp only [bind, Except.bind]
+  cases h : bitAt sp.data sp.off <;> simp [fieldOf, h]
+
+/-- T7 `bitspan::setZeros` (after the proposed fix), full statement: a range that does not fit is reported
+(`-3`, nothing changed); otherwise every bit of `[off, off+len)` is zero afterwards, every other bit is
+untouched, and no access leaves the span. -/
+theorem C14_cpp_setZeros (sp : Cpp.Span) (len : Nat) :
+    (len > sp.size → Cpp.setZeros sp len = .ok (errTooSmall, sp.data)) ∧
+    (¬ len > sp.size →
+      ∃ r, Cpp.setZeros sp len = .ok (0, r) ∧ r.length = sp.data.length ∧ (WF sp.data → WF r) ∧
+        ∀ i, bitAt r i = if sp.off ≤ i ∧ i < sp.off + len then false else bitAt sp.data i) :=
+  ⟨Cpp.setZeros_small sp len, Cpp.setZeros_spec sp len⟩
+
+/-- `bitspan::padAndMoveToAlignment(n)` for `0 < n < 256` (the generated code uses 8, 16, 32, 64), on top of the
+repaired `setZeros`: pads with zeros exactly up to the next multiple of `n`, or reports `-3`. -/
+theorem C14_cpp_padAndMoveToAlignment (sp : Cpp.Span) (n : Nat) (hn0 : 0 < n) (hn : n < 256) :
+    (sp.off % n = 0 → Cpp.padAndMoveToAlignment sp n = .ok (0, sp.data, sp.off)) ∧
+    (sp.off % n ≠ 0 → n - sp.off % n > sp.size →
+      Cpp.padAndMoveToAlignment sp n = .ok (errTooSmall, sp.data, sp.off)) ∧
+    (sp.off % n ≠ 0 → ¬ n - sp.off % n > sp.size →
+      ∃ r, Cpp.padAndMoveToAlignment sp n = .ok (0, r, sp.off + (n - sp.off % n)) ∧
+        (sp.off + (n - sp.off % n)) % n = 0 ∧ r.length = sp.data.length ∧ (WF sp.data → WF r) ∧
+        ∀ i, bitAt r i = if sp.off ≤ i ∧ i < sp.off + (n - sp.off % n) then false else bitAt sp.data i) :=
+  Cpp.pad_spec sp n hn0 hn
+
+/-- `bitspan::subspan(bits_at, size_bits)`: error ⇔ the window ends after the data; otherwise the window lies
+inside the data and starts at the addressed bit (its byte count is rounded down). -/
+theorem C14_cpp_subspan (sp : Cpp.Span) (bitsAt sizeBits : Nat) :
+    (sp.data.length * 8 < sp.off + bitsAt + sizeBits → Cpp.subspan sp bitsAt sizeBits = (errTooSmall, 0, 0, 0)) ∧
+    (¬ sp.data.length * 8 < sp.off + bitsAt + sizeBits →
+      ∃ first nbytes noff, Cpp.subspan sp bitsAt sizeBits = (0, first, nbytes, noff) ∧
+        first * 8 + noff = sp.off + bitsAt ∧ noff < 8 ∧ first + nbytes ≤ sp.data.length ∧
+        nbytes = (noff + sizeBits) / 8) :=
+  Cpp.subspan_spec sp bitsAt sizeBits
+
+/-! ### the shipped `setZeros` violates the statement (DESIGN F8) — regression witnesses
+
+`uint7 a; void2; uint7 b`: two zero bits at offset 7 — bit 8 is addressed and stays 1. -/
+example : Cpp.setZerosBeforeFix ⟨[0xFF, 0xFF], 7⟩ 2 = .ok (0, [0x7F, 0xFF]) := by decide
+example : ¬ (∃ r, Cpp.setZerosBeforeFix ⟨[0xFF, 0xFF], 7⟩ 2 = .ok (0, r) ∧
+    ∀ i, bitAt r i = if 7 ≤ i ∧ i < 7 + 2 then false else bitAt [0xFF, 0xFF] i) := by
+  rintro ⟨r, h, hb⟩
+  have hr : r = [0x7F, 0xFF] := by
+    have : Cpp.setZerosBeforeFix ⟨[0xFF, 0xFF], 7⟩ 2 = .ok (0, [0x7F, 0xFF]) := by decide
+    rw [this] at h; injection h with h; injection h with _ h; exact h.symm
+  subst hr
+  have := hb 8
+  revert this; decide
+-- 14 bits at offset 3 need three bytes, `ceil(14/8) = 2` are cleared: bit 16 stays 1
+example : Cpp.setZerosBeforeFix ⟨[0xFF, 0xFF, 0xFF], 3⟩ 14 = .ok (0, [0x07, 0x00, 0xFF]) := by decide
+-- and bits after the range are cleared: one bit at offset 0 wipes the whole byte
+example : Cpp.setZerosBeforeFix ⟨[0xFF], 0⟩ 1 = .ok (0, [0x00]) := by decide
+-- `padAndMoveToAlignment` is not affected in this instance (its range ends on a byte boundary); `void` fields are
+example : Cpp.padAndMoveToAlignmentBeforeFix ⟨[0xFF, 0xFF], 7⟩ 8 = .ok (0, [0x7F, 0xFF], 8) := by decide
+-- the repaired function on the same inputs
+example : Cpp.setZeros ⟨[0xFF, 0xFF], 7⟩ 2 = .ok (0, [0x7F, 0xFE]) := by decide
+example : Cpp.setZeros ⟨[0xFF, 0xFF, 0xFF], 3⟩ 14 = .ok (0, [0x07, 0x00, 0xFE]) := by decide
+example : Cpp.setZeros ⟨[0xFF], 0⟩ 1 = .ok (0, [0xFE]) := by decide
+example : Cpp.padAndMoveToAlignment ⟨[0xFF, 0xFF, 0xFF], 7⟩ 16 = .ok (0, [0x7F, 0x00, 0xFF], 16) := by decide
+-- other non-vacuity witnesses
+example : Cpp.subspan ⟨[1, 2, 3, 4], 3⟩ 7 12 = (0, 1, 1, 2) := by decide
+example : Cpp.getI 16 ⟨[0x80, 0xFF, 0], 7⟩ 9 = .ok (-1) := by decide
+example : Cpp.setUxx ⟨[0, 0, 0], 7⟩ 0x1FF 9 = .ok (0, [0x80, 0xFF, 0]) := by decide
+example : Cpp.getBits ⟨[0xFF, 0xFF], 12⟩ [0xAA, 0xAA, 0xAA] 9 = .ok [0x0F, 0x00, 0xAA] := by decide
+
 
 end NunavutVerif.Bits
